@@ -302,7 +302,7 @@ impl<Key, Value> CacheD<Key, Value>
             }
             TypeOfExpiryUpdate::Deleted(key_id, expiry) => {
                 self.ttl_ticker.delete(&key_id, &expiry);
-                updated_weight.or_else(|| Some(existing_weight - Calculation::ttl_ticker_entry_size() as i64))
+                updated_weight.or_else(|| Some((existing_weight - Calculation::ttl_ticker_entry_size() as i64).max(1)))
             }
             TypeOfExpiryUpdate::Updated(key_id, old_expiry, new_expiry) => {
                 self.ttl_ticker.update(key_id, &old_expiry, new_expiry);
